@@ -55,6 +55,7 @@ type FuncContract struct {
 	Props      []string
 	Splits     []*Clause
 	Reveal     map[string]bool
+	Uses       []*Clause
 	Trusted    bool
 	Lib        bool
 	Inline     bool // closure bodies that are expanded at their call sites
@@ -110,7 +111,7 @@ type GlobalFact struct {
 
 var clauseKeywords = map[string]bool{"func": true, "spec": true, "axiom": true, "requires": true, "ensures": true,
 	"assigns": true, "effects": true, "nilable": true, "loop": true, "pure": true, "trusted": true, "iface": true,
-	"import": true, "inline": true, "global": true, "props": true, "split": true, "reveal": true}
+	"import": true, "inline": true, "global": true, "props": true, "split": true, "reveal": true, "use": true}
 
 func firstWord(s string) string {
 	s = strings.TrimSpace(s)
@@ -306,6 +307,15 @@ func (P *Program) parseClauses(lines []cline, sc *Scope, pkgPath string, lib boo
 				cur.LoopDec[n] = c
 			default:
 				return errf(l, "bad loop clause kind %q", fs[1])
+			}
+		case "use":
+			for _, part := range splitTopLevel(rest, ',') {
+				part = strings.TrimSpace(part)
+				e, err := parseSpecExpr(part)
+				if err != nil {
+					return errf(l, "%v in %q", err, part)
+				}
+				cur.Uses = append(cur.Uses, &Clause{Kind: "use", Text: part, Expr: e, File: l.file, Line: l.line})
 			}
 		case "reveal":
 			if cur.Reveal == nil {
@@ -603,7 +613,7 @@ func rewriteImplies(s string) string {
 
 func parseSpecExpr(text string) (ast.Expr, error) {
 	t := rewriteImplies(text)
-	t = strings.ReplaceAll(t, "$", "ghost_")
+	t = replaceGhost(t)
 	e, err := parser.ParseExpr(t)
 	if err != nil {
 		return nil, err
@@ -758,4 +768,34 @@ func resolveTypeExpr(e ast.Expr, sc *Scope, P *Program) (types.Type, error) {
 		return types.NewMap(k, v), nil
 	}
 	return nil, fmt.Errorf("unsupported type expression %T", e)
+}
+
+// replaceGhost rewrites $name to ghost_name outside string literals.
+func replaceGhost(s string) string {
+	var sb strings.Builder
+	inStr := byte(0)
+	for i := 0; i < len(s); i++ {
+		c := s[i]
+		if inStr != 0 {
+			sb.WriteByte(c)
+			if c == '\\' && inStr == '"' && i+1 < len(s) {
+				i++
+				sb.WriteByte(s[i])
+			} else if c == inStr {
+				inStr = 0
+			}
+			continue
+		}
+		if c == '"' || c == '`' {
+			inStr = c
+			sb.WriteByte(c)
+			continue
+		}
+		if c == '$' {
+			sb.WriteString("ghost_")
+			continue
+		}
+		sb.WriteByte(c)
+	}
+	return sb.String()
 }
